@@ -76,3 +76,82 @@ Proof.
   unfold rspec. destruct (fst m) as [a|e|]; intros H; [|destruct H; lia|contradiction].
   destruct H as [H _]. lia.
 Qed.
+
+(* the same with a panic allowed under a condition P (P = "the code as found is modelled"): *)
+Definition rspecP {A} (P : Prop) (Kok Kerr : N) (phi : N) (m : M A) (phi' : A -> N) (Q : A -> Prop) : Prop :=
+  match fst m with
+  | Ok a => snd m + phi' a <= phi + Kok /\ Q a
+  | Err e => e <> EFuel /\ snd m <= phi + Kerr
+  | Panic => P /\ snd m <= phi + Kerr
+  end.
+
+Lemma rspecP_of {A} P K E phi (m : M A) phi' Q : rspec K E phi m phi' Q -> rspecP P K E phi m phi' Q.
+Proof. unfold rspec, rspecP. destruct (fst m); auto. contradiction. Qed.
+
+Lemma rspecP_step {A B} P E1 E psi phi (m : M A) phi1 Q (f : A -> M B) phi2 R :
+  rspecP P 0 E1 psi m phi1 Q -> psi <= phi -> E1 <= E ->
+  (forall a, Q a -> rspecP P 0 E (phi1 a) (f a) phi2 R) ->
+  rspecP P 0 E phi (mbind m f) phi2 R.
+Proof.
+  unfold rspecP, mbind. destruct m as [r n]. cbn [fst snd].
+  destruct r as [a|e|]; intros H1 Hp HE H2.
+  - destruct H1 as [H1 HQ]. specialize (H2 a HQ). cbn [fst snd].
+    destruct (f a) as [r2 n2]. cbn [fst snd] in *.
+    destruct r2 as [x|e|].
+    + destruct H2 as [H2 HR]. split; [lia|exact HR].
+    + destruct H2 as [H2 H3]. split; [exact H2|lia].
+    + destruct H2 as [H2 H3]. split; [exact H2|lia].
+  - cbn [fst snd]. destruct H1. split; [auto|lia].
+  - cbn [fst snd]. destruct H1. split; [auto|lia].
+Qed.
+
+Lemma rspecP_weaken {A} P K E K' E' phi psi (m : M A) phi' psi' (Q Q' : A -> Prop) :
+  rspecP P K E phi m phi' Q ->
+  K <= K' -> E <= E' -> phi <= psi ->
+  (forall a, Q a -> psi' a <= phi' a /\ Q' a) ->
+  rspecP P K' E' psi m psi' Q'.
+Proof.
+  unfold rspecP. destruct (fst m) as [a|e|].
+  - intros [H1 H2] HK HE Hp HQ. destruct (HQ a H2). split; [lia|auto].
+  - intros [H1 H2] HK HE Hp HQ. split; [auto|lia].
+  - intros [H1 H2] HK HE Hp HQ. split; [auto|lia].
+Qed.
+
+Lemma rspecP_ret {A} P (a : A) phi (phi' : A -> N) (Q : A -> Prop) K E :
+  phi' a <= phi + K -> Q a -> rspecP P K E phi (mret a) phi' Q.
+Proof. unfold rspecP, mret; cbn [fst snd]. intros; split; [lia|auto]. Qed.
+
+Lemma rspecP_err {A} P e phi (phi' : A -> N) (Q : A -> Prop) K E :
+  e <> EFuel -> rspecP P K E phi (@merr A e) phi' Q.
+Proof. unfold rspecP, merr; cbn [fst snd]. intros; split; [auto|lia]. Qed.
+
+Lemma rspecP_alloc_then {A} P n X phi E (m : M A) phi' Q :
+  X + n <= phi -> rspecP P 0 E X m phi' Q -> rspecP P 0 E phi (mbind (alloc n) (fun _ => m)) phi' Q.
+Proof.
+  intros H1 H2. unfold rspecP, mbind, alloc in *. cbn [fst snd].
+  destruct m as [r k]. cbn [fst snd] in *. destruct r as [a|e|].
+  - destruct H2; split; [lia|auto].
+  - destruct H2; split; [auto|lia].
+  - destruct H2; split; [auto|lia].
+Qed.
+
+Lemma rspecP_ret_step {A B} P (a : A) phi E (f : A -> M B) phi2 R :
+  rspecP P 0 E phi (f a) phi2 R -> rspecP P 0 E phi (mbind (mret a) f) phi2 R.
+Proof.
+  unfold rspecP, mbind, mret. cbn [fst snd]. destruct (f a) as [r n]. cbn [fst snd].
+  destruct r; auto.
+Qed.
+
+Lemma rspecP_err_step {A B} P e phi E (f : A -> M B) phi2 R :
+  e <> EFuel -> rspecP P 0 E phi (mbind (@merr A e) f) phi2 R.
+Proof. unfold rspecP, mbind, merr. cbn [fst snd]. intros; split; [auto|lia]. Qed.
+
+Lemma rspecP_facts {A} P K E phi (m : M A) phi' Q :
+  rspecP P K E phi m phi' Q ->
+  fst m <> Err EFuel /\ (~ P -> fst m <> Panic) /\ snd m <= phi + N.max K E.
+Proof.
+  unfold rspecP. destruct (fst m) as [a|e|]; intros [H1 H2].
+  - repeat split; try discriminate; lia.
+  - repeat split; try discriminate; try lia. intros X; apply H1; congruence.
+  - repeat split; try discriminate; try lia. intros HP _. apply HP; exact H1.
+Qed.
